@@ -130,7 +130,7 @@ class OperatorTemplate(AbstractBaseTemplate):
         # the operator is labelled by its name; the global cache of applied operators is keyed by name AND content, so
         # that a different operator that merely carries the same name never inherits equations or default values
         key = self.name
-        cache_key = (self.name, tuple(self.equations), repr(sorted((k, repr(v)) for k, v in self.variables.items())))
+        cache_key = (self.name, tuple(self.equations), repr(sorted((k, _content_key(v)) for k, v in self.variables.items())))
         if values is None:
             values = {}
 
@@ -180,6 +180,17 @@ class OperatorTemplate(AbstractBaseTemplate):
             return instance, values, key
         else:
             return instance, values
+
+
+def _content_key(v) -> str:
+    """String that identifies the content of a variable definition (`repr` abbreviates arrays of more than 1000 elements)."""
+    if isinstance(v, dict):
+        return repr(sorted((k, _content_key(val)) for k, val in v.items()))
+    if hasattr(v, 'tobytes') and hasattr(v, 'shape'):
+        return repr((v.shape, str(v.dtype), v.tobytes()))
+    if isinstance(v, (list, tuple)):
+        return repr([_content_key(val) for val in v])
+    return repr(v)
 
 
 def check_vname(v: str, vtype: str):
